@@ -31,8 +31,9 @@ const (
 	avStr // S is the exact value (Exact) or a known prefix
 	avRef // nil-ness of pointer/interface/map/slice/func/chan values; errors carry a class
 	avTuple
-	avPtr   // pointer to a local allocation (identity: context + Alloc)
-	avFAddr // address of field I of such an allocation
+	avPtr    // pointer to a local allocation (identity: context + Alloc)
+	avFAddr  // address of field I of such an allocation
+	avStruct // the value of such an allocation as a whole (a struct passed or copied by value): its fields are the cells of PC/PA
 )
 
 type ErrClass uint8
@@ -84,7 +85,7 @@ func (a AV) equal(b AV) bool {
 		return a.S == b.S && a.Exact == b.Exact
 	case avRef:
 		return a.Nil == b.Nil && a.E == b.E
-	case avPtr:
+	case avPtr, avStruct:
 		return a.PC == b.PC && a.PA == b.PA
 	case avFAddr:
 		return a.PC == b.PC && a.PA == b.PA && a.I == b.I
@@ -507,6 +508,22 @@ func (it *interp) transfer(n *Node, e env) {
 			}
 			return
 		}
+		if dst := it.val(n.Ctx, st.Addr, e); dst.K == avPtr {
+			// a whole struct copied into a tracked local (by-value parameter spilled to the stack, plain copy)
+			if src := it.val(n.Ctx, st.Val, e); src.K == avStruct {
+				if stt, ok := deref(dst.PA.Type()).Underlying().(*types.Struct); ok {
+					for i := 0; i < stt.NumFields(); i++ {
+						dk := vkey{c: dst.PC, v: dst.PA, cell: true, fld: i + 1}
+						if a, ok := e[vkey{c: src.PC, v: src.PA, cell: true, fld: i + 1}]; ok {
+							e[dk] = a
+						} else {
+							delete(e, dk)
+						}
+					}
+				}
+				return
+			}
+		}
 		if c, al := it.cellOf(n.Ctx, st.Addr); al != nil {
 			a := it.val(n.Ctx, st.Val, e)
 			k := vkey{c: c, v: al, cell: true}
@@ -559,6 +576,10 @@ func (it *interp) eval(n *Node, v ssa.Value, e env) AV {
 				if a, ok := e[vkey{c: fa.PC, v: fa.PA, cell: true, fld: int(fa.I) + 1}]; ok {
 					return a
 				}
+			} else if fa.K == avPtr {
+				if _, isStruct := x.Type().Underlying().(*types.Struct); isStruct {
+					return AV{K: avStruct, PC: fa.PC, PA: fa.PA}
+				}
 			}
 			switch addr := x.X.(type) {
 			case *ssa.FieldAddr:
@@ -584,6 +605,11 @@ func (it *interp) eval(n *Node, v ssa.Value, e env) AV {
 			return Top
 		}
 	case *ssa.Field:
+		if b := it.val(c, x.X, e); b.K == avStruct {
+			if a, ok := e[vkey{c: b.PC, v: b.PA, cell: true, fld: x.Field + 1}]; ok {
+				return a
+			}
+		}
 		if it.sc.FieldLoad != nil {
 			if st, ok := x.X.Type().Underlying().(*types.Struct); ok {
 				if a, ok := it.sc.FieldLoad(st.Field(x.Field)); ok {
@@ -618,6 +644,21 @@ func (it *interp) eval(n *Node, v ssa.Value, e env) AV {
 			return IntAV(int64(s.S[i.I]))
 		}
 	case *ssa.Lookup:
+		// a constant function table looked up with a known key: whether the key is present is known
+		if ld, ok := x.X.(*ssa.UnOp); ok && x.CommaOk {
+			if g, ok := ld.X.(*ssa.Global); ok {
+				if tab := it.g.P.ConstFuncTable(g); tab != nil {
+					if k := it.val(c, x.Index, e); k.K == avStr && k.Exact {
+						_, present := tab[k.S]
+						v := NilAV()
+						if present {
+							v = NonNilAV(ErrOther)
+						}
+						return TupleAV(v, BoolAV(present))
+					}
+				}
+			}
+		}
 		// s[i] on a string with a known prefix
 		s := it.val(c, x.X, e)
 		i := it.val(c, x.Index, e)
@@ -865,6 +906,18 @@ func (it *interp) feasible(n *Node, e env) []succEnv {
 		}
 		return out
 	}
+	if len(n.Dispatch) > 0 && n.DispatchKey != nil {
+		// a call through a constant function table: with a known key only that entry runs
+		if k := it.val(n.Ctx, n.DispatchKey, e); k.K == avStr && k.Exact {
+			var out []succEnv
+			for i, d := range n.Dispatch {
+				if d.Key == k.S && i < len(n.Succs) {
+					out = append(out, succEnv{n.Succs[i], e})
+				}
+			}
+			return out
+		}
+	}
 	out := make([]succEnv, 0, len(n.Succs))
 	for _, s := range n.Succs {
 		out = append(out, succEnv{s, e})
@@ -935,9 +988,9 @@ func (it *interp) refine(c *Ctx, cond ssa.Value, outcome bool, e env) {
 // phi evaluation on block edges, parameter binding on call edges, result binding on return edges.
 func (it *interp) edge(from, to *Node, e env) env {
 	// call -> callee entry
-	if from.Kind == KCall && from.Inl != nil && to.Ctx == from.Inl {
+	if from.Kind == KCall && from.Inl != nil && (to.Ctx == from.Inl || (len(from.Dispatch) > 0 && to.Ctx.CallNode == from && to.Ctx.Parent == from.Ctx)) {
 		o := e.clone()
-		callee := from.Inl.Fn
+		callee := to.Ctx.Fn
 		args := from.Call.Args
 		// for invoke-mode calls there is no static callee, so args align with params directly
 		for i, p := range callee.Params {
@@ -1276,6 +1329,7 @@ func trackableStruct(al *ssa.Alloc) bool {
 		for _, r := range *al.Referrers() {
 			switch x := r.(type) {
 			case *ssa.FieldAddr, *ssa.DebugRef, *ssa.Return:
+			case *ssa.UnOp: // the struct read as a whole (passed or copied by value)
 			case *ssa.MakeClosure:
 			case *ssa.Call:
 				f := x.Call.StaticCallee()
